@@ -64,6 +64,11 @@ def make_case(spec, knobs, aux=None, choices=None):
 def gen_cases(prop, seed):
     """all the cases that one seed stands for"""
     rng = random.Random(seed)
+    if prop in ('C01', 'C02') and seed % 4 == 0:
+        # a history of construction / query / surgery calls, then run():
+        # judged by the history engine, reported under this property
+        from .hgen import gen_history
+        return [gen_history(seed, prop)]
     if prop == 'C10' and seed % 2:
         top, feat = gen.gen_tree(rng, FLAT_PROFILE)
         _make_flattenable(top)
@@ -306,6 +311,9 @@ def _nontrivial(prop, run, hist, stats):
 
 def evaluate_case(prop, case):
     """run the case and judge it for one property"""
+    if 'ops' in case:
+        from . import hcases
+        return hcases.evaluate_case(prop, case)
     res = Result()
     stats = {}
     res.stats = stats
@@ -385,10 +393,16 @@ def _loop_stats(run, stats):
 
 def digest(res):
     from .digest import run_digest
+    if hasattr(res, 'log'):
+        from . import hcases
+        return hcases.digest(res)
     return run_digest(res.run) if res.run is not None else None
 
 
 def events(res):
+    if hasattr(res, 'log'):
+        from . import hcases
+        return hcases.events(res)
     run = res.run
     if run is None:
         return []
@@ -398,6 +412,9 @@ def events(res):
 
 def sample(seed, idx, case, res):
     from .driver import compact
+    if 'ops' in case:
+        from . import hcases
+        return hcases.sample(seed, idx, case, res)
     run = res.run
     base = run.knobs['base']
     return {
@@ -413,16 +430,23 @@ def sample(seed, idx, case, res):
 
 def candidates(case):
     from .shrink import candidates as cands
+    if 'ops' in case:
+        from . import hcases
+        return hcases.candidates(case)
     return cands(case)
 
 
 def valid(prop, case):
     from .shrink import valid as ok
+    if 'ops' in case:
+        return bool(case['ops'])
     return ok(prop, case)
 
 
 def pin(case, res):
     """replay the recorded schedule choices from now on"""
+    if 'ops' in case:
+        return None
     if case.get('choices') is None and res.run is not None:
         pinned = dict(case)
         pinned['choices'] = list(res.run.choices)
@@ -432,4 +456,4 @@ def pin(case, res):
 
 def case_size(case):
     import json
-    return len(json.dumps(case['spec']))
+    return len(json.dumps(case.get('spec') or case.get('ops')))
